@@ -216,13 +216,16 @@ def _install():
             err = np.abs(v - ref).max()
             if err <= tol:
                 worst = max(worst, err / tol)
-                if err / tol > 0.5:
+                if err / tol > 0.5 and model is None:
                     c["near"] = dict(name=name, ratio=float(err / tol), method=c["method"], fit=fit, smin=smin, tol=float(tol),
                                      err=float(err), path=getattr(self.force_matrices[when], "_verif", {}).get("path"))
                 continue
             if model is not None:
                 smq, _ = fb.sigma_min_aug(A_code)
-                tolq = {None: 1e-7, "lsq": 1e-4, "lsq_linear": 1e-3}[c["method"]] * (1 + 1 / max(smq, 1e-12))
+                # lsq_linear (scipy trf, default tol 1e-10 on the cost) on the bordered normal equations of an INCONSISTENT
+                # (mirrored) system is only good to ~1e-2 (probe p27): loose enough to separate the known finding from
+                # anything else, which would show on the consistent systems as well
+                tolq = {None: 1e-7, "lsq": 1e-4, "lsq_linear": 5e-3}[c["method"]] * (1 + 1 / max(smq, 1e-12))
                 errq = np.abs(v - model).max()
                 if errq <= tolq:
                     mon.fail("F-MIRROR", "reported tension = true tension / mean", name=name, err=float(err), tol=float(tol),
